@@ -598,6 +598,35 @@ func GenSched(r *sim.Rand, tier string) sim.Script {
 		s.SchedSeed = r.U64()
 		return s
 	}
+	if !lossy && r.Chance(1, 7) {
+		// judged saves: plain writes, reads and saves (half of them abandoned by their caller)
+		s.SaveJudge = true
+		for t := 0; t < nt && t < 3; t++ {
+			var ops []Op
+			for i := 2 + r.Intn(4); i > 0; i-- {
+				p := pool[r.Intn(len(pool))]
+				switch r.Weighted([]int{30, 12, 10, 12, 25, 4}) {
+				case 0:
+					n++
+					ops = append(ops, Op{K: "ins", P: p, V: []byte(fmt.Sprintf("t%d", n))})
+				case 1:
+					ops = append(ops, Op{K: "del", P: p})
+				case 2:
+					ops = append(ops, Op{K: "get", P: p})
+				case 3:
+					ops = append(ops, Op{K: "save"})
+				case 4:
+					ops = append(ops, Op{K: "savecancel"})
+				default:
+					ops = append(ops, Op{K: "iter"})
+				}
+			}
+			s.Tasks = append(s.Tasks, ops)
+		}
+		s.Strategy = []string{"rw", "rw", "pct", "rub"}[r.Intn(4)]
+		s.SchedSeed = r.U64()
+		return s
+	}
 	for t := 0; t < nt; t++ {
 		var ops []Op
 		for i := 2 + r.Intn(5); i > 0; i-- {
